@@ -330,6 +330,10 @@ def _run(pid, tier, a, mod, scratch, t0):
     # ---- replay files
     lines = []
     os.makedirs(os.path.join(VERIF_DIR, "replays"), exist_ok=True)
+    if replay_seed is None:
+        import glob
+        for old in glob.glob(os.path.join(VERIF_DIR, "replays", f"{pid}-*.json")):
+            os.remove(old)
     seen_mech = {}
     for v in new:
         seen_mech.setdefault(v["mech"], []).append(v)
